@@ -446,6 +446,20 @@ pub const F_CAPTURE: &str = "C09-generated-cte-name-equals-user-column";
 
 /// recorded finding: a generated CTE name `table_N` equals a user column / alias name
 fn capture_finding(case: &Case, sql: &str, known: &Known) -> Option<Verdict> {
+    // a user *table* called table_M is read as `table_N AS table_M` (renamed as if it were generated)
+    if known.is_open("C09-user-table-renamed-as-generated") {
+        static RE: std::sync::OnceLock<regex::Regex> = std::sync::OnceLock::new();
+        let re = RE.get_or_init(|| regex::Regex::new(r"\btable_(\d+) AS table_(\d+)\b").unwrap());
+        for c in re.captures_iter(sql) {
+            let user = format!("table_{}", &c[2]);
+            if c[1] != c[2] && case.base.db.tables.iter().any(|t| t.name == user) && !sql.contains(&format!("table_{} AS (", &c[1])) {
+                return Some(Verdict::Known(
+                    "C09-user-table-renamed-as-generated".into(),
+                    format!("user table {user} is read as `table_{} AS {user}`", &c[1]),
+                ));
+            }
+        }
+    }
     if !known.is_open(F_CAPTURE) {
         return None;
     }
